@@ -199,7 +199,7 @@ def random_(ctx, spec):
     menu = dict(build=6, apply=10, apply_quant=1, ite=5, quantify=3,
                 let_const=2, let_rename=2, let_compose=2, cube=1, var=1,
                 add_expr=2, dup=3, drop=8, drop_many=2, gc=6, gc_rooted=3,
-                swap=4, sift=1, reorder_to=1, pairs=1, **{'not': 1})
+                swap=4, sift=1, reorder_to=1, pairs=1, clone=1, **{'not': 1})
     ever = set(w.raw._succ)
     for k in range(spec['steps']):
         before = set(w.raw._succ)
